@@ -15,6 +15,7 @@ import Driver.C10
 import Driver.C09
 import Driver.C04
 import Driver.C11
+import Driver.C05
 open Driver
 
 def dispatch (id : String) (toks : List String) (impl : String) : Verdict :=
@@ -35,6 +36,7 @@ def dispatch (id : String) (toks : List String) (impl : String) : Verdict :=
   | "C09" => Driver.C09.handle toks impl
   | "C04" => Driver.C04.handle toks impl
   | "C11" => Driver.C11.handle toks impl
+  | "C05" => Driver.C05.handle toks impl
   | _ => badOp "unknown property"
 
 /-- Split `line` at the first occurrence of " => ". -/
